@@ -20,6 +20,7 @@ pub struct C02 {
     n_comp: u64,
     n_shape: u64,
     n_samples: u64,
+    n_dense: u64,
 }
 
 fn first_diff(a: &[u8], b: &[u8]) -> usize {
@@ -39,6 +40,7 @@ impl C02 {
             n_comp: scaled(tier.pick(9_000, 400_000), scale),
             n_shape: scaled(tier.pick(160, 3_200), scale),
             n_samples: tier.pick(16, 3 * streams::repo_sample_count()),
+            n_dense: scaled(tier.pick(240, 6_000), scale),
         }
     }
 
@@ -249,7 +251,7 @@ fn kind_of<T>(o: &Out<T>) -> String {
 
 impl Monitor for C02 {
     fn ncases(&self) -> u64 {
-        self.n_gen + self.n_comp + self.n_shape + self.n_samples
+        self.n_gen + self.n_comp + self.n_shape + self.n_samples + self.n_dense
     }
 
     fn cpu_budget_s(&self) -> u64 {
@@ -259,7 +261,12 @@ impl Monitor for C02 {
 
     fn run_case(&mut self, k: u64, ctx: &mut Ctx) {
         let max_plain = self.tier.pick(200_000, 500_000);
-        let (label, base, mut r) = if k < self.n_gen {
+        let (label, base, mut r) = if k >= self.n_gen + self.n_comp + self.n_shape + self.n_samples {
+            let idx = k - (self.n_gen + self.n_comp + self.n_shape + self.n_samples);
+            let mut r = Rng::derive(self.seed, 0x0205, idx, 0);
+            let s = streams::boundary_dense_stream(&mut r, 150_000);
+            (s.recipe.clone(), s.bytes, r)
+        } else if k < self.n_gen {
             let mut r = Rng::derive(self.seed, 0x0201, k, 0);
             match streams::generator_stream(&mut r, max_plain) {
                 Some(s) => (format!("generator: {}", s.recipe), s.bytes, r),
